@@ -33,3 +33,24 @@ package handler
 //@   ensures[C11:echoed-options-untouched] ret0 != nil ==> ((has(ret0.Options, 82) <==> old(has(resp.Options, 82))) && ret0.Options[82] == old(resp.Options[82]) && \
 //@       (has(ret0.Options, 61) <==> old(has(resp.Options, 61))) && ret0.Options[61] == old(resp.Options[61]))
 //@   ensures[C11:reply-type-untouched] ret0 != nil ==> mtof(ret0.Options) == old(mtof(resp.Options))
+
+//@ ghost var hlog_req6 Array[int]Iface
+//@ ghost var hlog_in6 Array[int]Iface
+//@ ghost var hlog_out6 Array[int]Iface
+
+// The server passes the parsed packet (whose innermost message exists) and a *dhcpv6.Message reply.
+//@ pure func resp6ok(resp dhcpv6.DHCPv6) bool = typeis(resp, *dhcpv6.Message) && resp.(*dhcpv6.Message) != nil
+//@ type Handler6
+//@   requires req != nil && innerok6(req) && inner6(req) != nil && resp6ok(resp)
+//@   modifies everything
+//@   ensures[C13,callsite:logged] hlog_n == old(hlog_n) + 1 && hlog_fn == upd(old(hlog_fn), old(hlog_n), self) && \
+//@       hlog_req6 == upd(old(hlog_req6), old(hlog_n), req) && hlog_in6 == upd(old(hlog_in6), old(hlog_n), resp) && \
+//@       hlog_out6 == upd(old(hlog_out6), old(hlog_n), ret0) && hlog_stop == upd(old(hlog_stop), old(hlog_n), ret1)
+//@   ensures[C13:nil-only-with-stop] ret0 == nil ==> ret1
+//@   ensures ret0 == nil || ret0 == resp
+//@   ensures[C01:sends-nothing] sent == old(sent)
+//@   ensures[C12:request-untouched] *inner6(req) == old(*inner6(req))
+//@   ensures[C12:reply-header-untouched] ret0 != nil ==> (resp.(*dhcpv6.Message).MessageType == old(resp.(*dhcpv6.Message).MessageType) && \
+//@       resp.(*dhcpv6.Message).TransactionID == old(resp.(*dhcpv6.Message).TransactionID))
+//@   ensures[C12:client-id-untouched] ret0 != nil ==> (optn6(resp.(*dhcpv6.Message))[1] == old(optn6(resp.(*dhcpv6.Message))[1]) && optlast6(resp.(*dhcpv6.Message))[1] == old(optlast6(resp.(*dhcpv6.Message))[1]) && \
+//@       optn6(resp.(*dhcpv6.Message))[14] == old(optn6(resp.(*dhcpv6.Message))[14]))
